@@ -81,6 +81,8 @@ def gen_array(rnd, kind):
         data = [rnd.choice([0.0, 1.0, 0.5, round(rnd.uniform(0, 1), 3), round(rnd.uniform(-0.2, 1.2), 2)]) for _ in range(n)]
     if kind == "thr" and n and rnd.random() < 0.08:
         data[rnd.randrange(n)] = rnd.choice([float("inf"), float("-inf")])  # thresholds beyond every score
+    if kind == "thr" and n and rnd.random() < 0.06:
+        data[rnd.randrange(n)] = -0.0  # the other zero
     a = {"shape": shape, "data": data, "kind": kind, "readonly": rnd.random() < 0.25,
          "scalar_as": rnd.choice(["py", "np", "0d", "int", "np32", "np16", "npint"]) if not shape else None}
     if a["scalar_as"] in ("int", "npint"):
